@@ -93,7 +93,7 @@ def _assert_async(ctx: Ctx, c: Collector) -> None:
     # successors" is not a state, and testing the smaller table alone is the same gate
     subset = True
     n_w = 0
-    for f2 in ctx.prog.all_functions():
+    for f2 in analysis_units(ctx.prog):
         s2 = summarise(ctx.prog, f2)
         sts = [e for e in s2.of_kind("store") if e.term[1][0] == "idx" and e.term[1][1][0] == "attr"]
         for e in sts:
@@ -314,7 +314,7 @@ def _flags(ctx: Ctx, c: Collector) -> None:
     }
     for flag, table in allowed.items():
         pr = []
-        for fi in ctx.prog.all_functions():
+        for fi in analysis_units(ctx.prog):
             if flag not in fi.params:
                 continue
             s = summarise(ctx.prog, fi)
